@@ -5,7 +5,9 @@ import "io"
 // C12: version and msize negotiation.
 
 // specParseVersion: independent parser of the grammar
-//   9P2000.L | 9P2000.L.Google.<1+ decimal digits>
+//
+//	9P2000.L | 9P2000.L.Google.<1+ decimal digits>
+//
 // known=false for anything else. huge: the numeral does not fit 32 bits.
 func specParseVersion(s string) (known bool, n uint64, huge bool) {
 	if s == "9P2000.L" {
